@@ -548,10 +548,27 @@ fn case(cx: &mut CaseCtx, input: Input) -> CaseResult {
     // when the compilation has no error, generators run: a failing one adds its own error and must
     // not cost any of the diagnostics recorded before
     let mut failing: Vec<String> = Vec::new();
+    // a generator that succeeds may report diagnostics of its own in its reply: whatever slicec does with
+    // their text, none of it belongs on the diagnostic stream
+    let mut talking = 0usize;
     if exp_e == 0 {
         let ngen = pick(&mut u, 3);
         for g in 0..ngen {
-            match pick(&mut u, 3) {
+            match pick(&mut u, 4) {
+                3 => {
+                    let n = 1 + pick(&mut u, 3);
+                    let diags: Vec<Vec<u8>> = (0..n)
+                        .map(|k| {
+                            let level = pick(&mut u, 3) as u8;
+                            let source = if pick(&mut u, 2) == 1 { Some("talk.slice") } else { None };
+                            crate::c11::enc_diag(level, &format!("generator {g} says {k} at level {level}"), source, &[])
+                        })
+                        .collect();
+                    let reply = crate::c11::reply_of(&[], &diags);
+                    dir.install_generator(&format!("talk{g}"), &format!("reply_hex={}\n", to_hex(&reply)));
+                    argv.push(os(&format!("--generator=./talk{g}")));
+                    talking += 1;
+                }
                 0 => {
                     dir.install_generator(&format!("good{g}"), "");
                     argv.push(os(&format!("--generator=./good{g}")));
@@ -568,6 +585,7 @@ fn case(cx: &mut CaseCtx, input: Input) -> CaseResult {
             }
         }
         cx.label_if(!failing.is_empty() && exp_w > 0, "failing-generator-after-warnings");
+        cx.label_if(talking > 0, "generator-reply-with-diagnostics");
     }
     let env: Vec<(&str, &str)> = if colour_forced { vec![("CLICOLOR_FORCE", "1")] } else { vec![("NO_COLOR", "1")] };
     let r = proc::run_slicec(&dir.path, &argv, &env, Duration::from_secs(20));
@@ -608,7 +626,8 @@ fn case(cx: &mut CaseCtx, input: Input) -> CaseResult {
     }
     let exp_e = exp_e + failing.len();
     if json_mode {
-        check!(stdout.is_empty(), "binary/json-mode-stdout-not-empty", "stdout: {stdout:?}");
+        // (what a talking generator's own messages do to stdout is not this property's subject)
+        check!(talking > 0 || stdout.is_empty(), "binary/json-mode-stdout-not-empty", "stdout: {stdout:?}");
     } else {
         let so = strip_ansi(&stdout);
         let mut want = String::new();
@@ -618,7 +637,8 @@ fn case(cx: &mut CaseCtx, input: Input) -> CaseResult {
         if exp_e > 0 {
             want.push_str(&format!("Failed: Compilation failed with {exp_e} error(s)\n"));
         }
-        check!(so == want, "binary/totals", "argv {argv:?}: totals {so:?}, expected {want:?}");
+        let totals_ok = if talking > 0 { so.ends_with(&want) && (!want.is_empty() || !so.contains("Compilation")) } else { so == want };
+        check!(totals_ok, "binary/totals", "argv {argv:?}: totals {so:?}, expected {want:?}");
     }
     check!(
         r.code == Some(if exp_e > 0 { 1 } else { 0 }),
@@ -664,6 +684,7 @@ impl Check for C14 {
             "tabs",
             "crlf",
             "failing-generator-after-warnings",
+            "generator-reply-with-diagnostics",
         ]
     }
     fn needs_binary(&self) -> bool {
